@@ -50,6 +50,11 @@ def _generate(groups, only, out, quiet, prune=False):
                 files[name + 'D.lean'] = m.deriv_file(fields=tg['deriv'] or None, second=tg['second'])
             if tg['floats']:
                 files[name + 'F.lean'] = m.float_file()
+            big = [fn for fn, text in files.items() if len(text) > 1500000]
+            if big:
+                # a trace that explodes (e.g. an iteration unrolled on symbolic values) is not a model
+                raise TraceError('generated model too large (%s: %d bytes): the code no longer traces to a closed form'
+                                 % (big[0], len(files[big[0]])))
             for fn, text in files.items():
                 if write_if_changed(os.path.join(out, fn), text):
                     changed.append(fn)
